@@ -10,7 +10,12 @@ alive when it is called, whatever the stack looks like — the empty stack (`Sco
 find nothing.
 
 The model threads the cell (`borrowed` flag + the stack) through the operations; `Res.panic` is the
-`BorrowMutError` panic.  Values are numbers, contexts, or anything else.
+`BorrowMutError` panic.  Values are numbers, strings, null, contexts, lists, or anything else.
+
+A `FeelContext` is a `BTreeMap<Name, Value>`: one entry per name, `set_entry` on a bound name replaces
+the value.  The model keeps an association list in which `setIn` replaces in place; every lookup takes
+the first entry of a name, so no answer depends on the order of the entries (the correspondence
+compares contexts as maps).
 -/
 
 namespace Dmn.ScopeCell
@@ -20,6 +25,8 @@ inductive Val where
   | other
   | null
   | ctx (es : List (String × Val))
+  | str (s : String)
+  | list (items : List Val)
 
 abbrev Ctx := List (String × Val)
 
@@ -71,6 +78,25 @@ def modifyLast (stack : List Ctx) (f : Ctx → Ctx) : List Ctx :=
   | [] => []
   | top :: below => (f top :: below).reverse
 
+/-! `FeelContext::flatten_keys` (context.rs:191): every key; for a value that is a context — or a
+list, for each of its items that is a context — every flattened key `s` of that context, and
+`key . s`.  (Values of kind `FeelType` are outside the model.) -/
+mutual
+  def flatCtx : List (String × Val) → List String
+    | [] => []
+    | e :: es => e.1 :: (flatVal e.1 e.2 ++ flatCtx es)
+  def flatVal (k : String) : Val → List String
+    | .ctx es => let sub := flatCtx es; sub ++ sub.map (fun s => k ++ " . " ++ s)
+    | .list items => flatItems k items
+    | _ => []
+  def flatItems (k : String) : List Val → List String
+    | [] => []
+    | v :: rest =>
+      (match v with
+       | .ctx es => let sub := flatCtx es; sub ++ sub.map (fun s => k ++ " . " ++ s)
+       | _ => []) ++ flatItems k rest
+end
+
 inductive Op where
   | push (ctx : Ctx)
   | pop
@@ -86,7 +112,8 @@ inductive Ans where
   | unit
   | ctx (c : Option Ctx)
   | val (v : Option Val)
-  | keys (n : Nat)
+  /-- the set of flattened keys (as a list: order and repetitions mean nothing) -/
+  | keys (ks : List String)
 
 def exec (c : Cell) : Op → Res Ans
   | .push ctx => withBorrow c (fun s => (.unit, s ++ [ctx]))                                   -- :104
@@ -96,7 +123,15 @@ def exec (c : Cell) : Op → Res Ans
   | .searchDeep names => withBorrow c (fun s => (.val (searchDeepIn s names), s))              -- :138
   | .setEntry k v => withBorrow c (fun s => (.unit, modifyLast s (fun top => setIn top k v)))  -- :149
   | .insertNull k => withBorrow c (fun s => (.unit, modifyLast s (fun top => setIn top k .null))) -- :155
-  | .flattenKeys => withBorrow c (fun s => (.keys (s.map List.length).sum, s))                 -- :118
+  | .flattenKeys => withBorrow c (fun s => (.keys (s.flatMap flatCtx), s))                    -- :118
+
+/-- a sequence of operations with its answers; stops at the first panic (`none` as the last answer) -/
+def execTrace (c : Cell) : List Op → List (Option Ans) × Cell
+  | [] => ([], c)
+  | op :: ops =>
+    match exec c op with
+    | .ok a c' => let r := execTrace c' ops; (some a :: r.1, r.2)
+    | .panic => ([none], c)
 
 /-- a sequence of operations; stops at the first panic -/
 def execAll (c : Cell) : List Op → Option Cell
